@@ -822,8 +822,13 @@ def python_wf(dump):
 
 def oracle_entry(case):
     from cirbo.circuits_db.circuits_encoding import decode_circuit
+    # the entry is read from the database file of the tree under test (the recorded 'bytes' are what
+    # the reporting run saw; a replay on another tree must see that tree's data)
+    data = shipped(case['db']).get(case['key'])
+    if data is None:
+        return f'entry-missing: {case["db"]} has no entry {case["key"]}'
     try:
-        c = decode_circuit(bytes.fromhex(case['bytes']))
+        c = decode_circuit(data)
     except Exception as e:  # noqa: BLE001
         return f'entry-does-not-decode: {case["db"]} entry {case["key"]}: {type(e).__name__}: {e}'
     dump = ct.dump_circuit(c)
